@@ -45,7 +45,8 @@ def boundaries(prog, f):
     v = f if getattr(f, "inlined", None) else inline(prog, f)
     for root, cuts in cm.cut_points(prog, v).items():
         offs |= cuts
-    for g in [v] + [u for u in prog.unit(f) if u.key != f.key]:
+    folded = set(getattr(v, "inlined", []))
+    for g in [v] + [u for u in prog.unit(f) if u.key != f.key and u.path not in folded]:
         for c in g.calls():
             if c.path in ROT:
                 val = evaluate(call_arg_exprs(c)[1], {})
@@ -207,7 +208,8 @@ def sealnonce(rep, prog):
     out = cm.view_info(f, list(operand_locals(fins[0].args[1]))[0])[0]
     rep.ob("SEALNONCE", "output is the nonce", out == 1, "final writes parameter #%s" % out, loc=fins[0].loc())
     # the sealing function prepends epk: ciphertext[..32] <- epk from the generated pair
-    for s in prog.by_path.get("classic::crypto_box::crypto_box_seal", []):
+    from ..inline import inline as _inl
+    for s in [_inl(prog, s_) for s_ in prog.by_path.get("classic::crypto_box::crypto_box_seal", [])]:
         cts = [p for p in cm.params_of(s) if s.locals[p]["t"] == "&mut [u8]"]     # crypto_box_seal(ciphertext, message, pk)
         ct = cts[0] if len(cts) == 1 else s.arg_local("ciphertext")
         cps = [c for c in s.calls() if c.path in cm.COPY
